@@ -207,3 +207,31 @@ Proof.
   split; [vm_compute; repeat split; reflexivity|].
   eexists. split; [vm_compute; reflexivity|vm_compute; repeat split; reflexivity].
 Qed.
+
+(* Why C06_compaction_step_interleaved requires the deeper levels to be unchanged between picking and committing: with
+   memdbMaxLevel > 0 (a DB field marked "For testing"; the production value 0 flushes to level 0 only) a flush that
+   commits while a table compaction is in flight can be placed by pickMemdbLevel INSIDE the user-key hull of that
+   compaction's inputs, in the compaction's output level: pickMemdbLevel looks at the current tables only, the outputs do
+   not exist yet.  Witness: level 1 = {1: keys 1..3, 2: keys 24..26}, a range compaction with both as seed (no level-2
+   input; one output table spanning 1..26), meanwhile a flush of key 13 goes to level 2; committing the compaction then
+   yields level 2 = {30: 13, 20: 1..26} — overlapping tables; a lookup of key 13 at level 2 consults table 20 only. *)
+Definition ex_w : list (list table) :=
+  [ []; [ ex_t 1 [ex_e 1 5; ex_e 3 4]; ex_t 2 [ex_e 24 3; ex_e 26 2] ] ]%N.
+
+Example C06_deep_flush_during_compaction_refuted :
+  wf_lsmb bytewise kp ex_w = true /\
+  exists cm v2,
+    new_compaction bytewise (fun _ => 100) ex_w 1 100000 (nth 1 ex_w []) = POk cm /\
+    finish bytewise true ex_w (flush_edit bytewise kp (fun _ => 100) ex_w (fun _ => 1000) 2 (ex_t 30 [ex_e 13 40])) = POk v2 /\
+    wf_lsmb bytewise kp v2 = true /\ map nums_of v2 = [[]; [1; 2]; [30]]%N /\
+    let kept := compact_entries bytewise kp 0 [] (c_t0 cm ++ c_t1 cm) in
+    cuts_ok bytewise [kept] = true /\
+    match finish bytewise true v2 (compaction_edit cm (mk_outputs [20%N] [kept])) with
+    | POk nv => map nums_of nv = [[]; []; [30; 20]]%N /\ wf_lsmb bytewise kp nv = false
+    | _ => False
+    end.
+Proof.
+  split; [vm_compute; reflexivity|]. eexists. eexists.
+  split; [vm_compute; reflexivity|]. split; [vm_compute; reflexivity|].
+  vm_compute. repeat split; reflexivity.
+Qed.
